@@ -512,7 +512,8 @@ fn run_hist<C: RangeCombo>(segs: &[Vec<&str>]) -> String {
                     }
                     ["clear"] => {
                         coder.clear();
-                        spec_ok = false;
+                        // as new: the reference applies again, to what is encoded from here on
+                        spec_ok = true;
                         "ok".into()
                     }
                     ["intodec"] => {
